@@ -821,15 +821,24 @@ def accumulators(chk, fn, q):
     chk.check(all(red.get(a) == '0' for a in arrs), 'C08-R5', PS, q, 'per-thread rows summed over axis 0 after the loop', f'{red}',
               f'reductions {red} do not cover {arrs} over the thread axis', node=fn)
     # guarded division: every `/=` on an accumulator sits under `if <counts...> != 0`
+    # a mean is `X[...] /= <count>` in place, or `Y[...] = X[...] / <count>` into a result array; either way under `if <count> != 0`
     divs = [n for n in walk_no_nested(fn) if isinstance(n, ast.AugAssign) and isinstance(n.op, ast.Div)]
+    divs += [n for n in walk_no_nested(fn) if isinstance(n, ast.Assign) and isinstance(n.targets[0], ast.Subscript) and isinstance(n.value, ast.BinOp)
+             and isinstance(n.value.op, ast.Div) and isinstance(n.value.left, ast.Subscript) and 'counts' in unparse(n.value.left.value)
+             and unparse(n.value.left.slice) == unparse(n.targets[0].slice)]
     badd = []
     for d in divs:
         par = getattr(d, '_parent', None)
-        okg = isinstance(par, ast.If) and isinstance(par.test, ast.Compare) and isinstance(par.test.ops[0], ast.NotEq) and 'counts' in unparse(par.test.left) \
+        okg = isinstance(par, ast.If) and d in par.body and isinstance(par.test, ast.Compare) and isinstance(par.test.ops[0], ast.NotEq) and 'counts' in unparse(par.test.left) \
             and unparse(par.test.comparators[0]) == '0'
-        den = unparse(d.value)
+        den = unparse(d.value if isinstance(d, ast.AugAssign) else d.value.right)
         if not (okg and unparse(par.test.left) in den):
             badd.append(unparse(d))
+        if isinstance(d, ast.Assign) and okg:
+            # the other arm copies the sum unchanged, so the result array is defined for every bin
+            cp = [x for x in par.orelse if isinstance(x, ast.Assign) and unparse(x.targets[0]) == unparse(d.targets[0]) and unparse(x.value) == unparse(d.value.left)]
+            if len(cp) != 1:
+                badd.append(unparse(d) + ' (no copy of the sum for an empty bin)')
     chk.check(bool(divs) and not badd, 'C08-R5', PS, q, 'means divide by the mode count of the same bin, only where non-zero', f'{len(divs)} divisions',
               f'unguarded or mismatched divisions: {badd}', node=fn)
     if q == 'bin_kmu':
